@@ -105,7 +105,7 @@ func (t *Table) nameID(s string) uint64 {
 
 // ValGen fills values; one per case (canary numbering is per case).
 type ValGen struct {
-	r        *core.Rand
+	r         *core.Rand
 	Canaries  []*Canary
 	SecFields int // secure-tagged fields the scrubber can reach (whatever their kind)
 	n         int
@@ -373,4 +373,3 @@ func sortStrings(a []string) {
 		}
 	}
 }
-
